@@ -54,7 +54,8 @@ def build_jobs(prop, tier, seed, names, include_points=False, zero_cap_stream=Tr
             jobs.append(Job("framework.props.calls", "run_calls",
                             {"props": props, "names": deep, "kind": "random", "tier": tier,
                              "seed": seed * 50021 + c * 31 + 7, "count": (700 if q else 8000) * len(deep),
-                             "opts": {"max_arity": 8 if c % 2 else 6, "width": 2, "base": 2, "allow_all_zero": True},
+                             "opts": {"max_arity": 8 if c % 2 else 6, "min_arity": 5 if c % 2 else 2, "width": 2, "base": 2,
+                                      "allow_all_zero": True},
                              "points": 0.05, "deadline_s": 100 if q else 900},
                             mode="jit" if c % 2 else "interp", timeout=400 if q else 1500, tag="deep:%d" % c))
     # wide stream: arity up to 12 on domains up to 10 values - far beyond O-hull; judged by the sampled oracles (a satisfying
@@ -66,7 +67,7 @@ def build_jobs(prop, tier, seed, names, include_points=False, zero_cap_stream=Tr
             jobs.append(Job("framework.props.calls", "run_calls",
                             {"props": props, "names": wide, "kind": "random", "tier": tier,
                              "seed": seed * 60013 + c * 37 + 11, "count": (500 if q else 6000) * len(wide),
-                             "opts": {"max_arity": 12 if c % 2 else 9, "width": 9 if c % 2 else 6, "base": 6,
+                             "opts": {"max_arity": 12 if c % 2 else 9, "min_arity": 7, "width": 9 if c % 2 else 6, "base": 6,
                                       "allow_all_zero": True},
                              "points": 0.08, "deadline_s": 100 if q else 900, "hull_limit": 3000},
                             mode="jit" if c % 2 else "interp", timeout=400 if q else 1500, tag="wide:%d" % c,
@@ -80,6 +81,15 @@ def build_jobs(prop, tier, seed, names, include_points=False, zero_cap_stream=Tr
                              "opts": {"max_arity": 6 if c % 2 == 0 else 8, "width": 2, "base": 1},
                              "points": 0.02, "deadline_s": 100 if q else 900},
                             mode="jit" if c % 2 == 0 else "interp", timeout=400 if q else 1500, tag="lex:%d" % c))
+        # ... and its last states only with four or more pairs (exact hull through O-support)
+        for c in range(2 if q else 4):
+            jobs.append(Job("framework.props.calls", "run_calls",
+                            {"props": props, "names": ["lexicographic_leq"], "kind": "random", "tier": tier,
+                             "seed": seed * 70003 + c * 17 + 9, "count": 8000 if q else 80000,
+                             "opts": {"min_arity": 8, "max_arity": 8 if c % 2 == 0 else 12, "width": 2 if c % 2 == 0 else 1,
+                                      "base": 1},
+                             "points": 0.02, "deadline_s": 100 if q else 900, "hull_limit": 2000},
+                            mode="jit" if c % 2 == 0 else "interp", timeout=400 if q else 1500, tag="lexlong:%d" % c))
     if zero_cap_stream and "gcc" in names:
         # targeted stream for the gcc zero-capacity mechanism (interpreted only: the line budget cuts its endless loop)
         jobs.append(Job("framework.props.calls", "run_calls",
